@@ -225,6 +225,37 @@ def replay_long(rec):
     return [v["message"] for v in long_task(dict(cfg=rec["cfg"], T=rec["T"], ks=[rec["comp"][0]]))[1]]
 
 
+def refine_case(task):
+    """refineSolution=True: batches, Solve, Solve again.  The global search of the second Solve performs no trial: the
+    number of global trials reported, the trials told to listeners and the trial record stay what they were."""
+    from mc.env import Recorder
+    cfg, comp = task["cfg"], task["comp"]
+    f = env_of(cfg)
+    told = []
+    rec = Recorder(on_iter=lambda pts, sol: told.extend(p.GetX() for p in pts))
+    run = tree.make_run(dict(cfg, eps=task["eps"], itersLimit=task["limit"], refine=True), f, listeners=[rec])
+    tag = f"{cfg['env']} N={cfg['N']} refineSolution=True, batches {comp}, Solve(eps={task['eps']}, itersLimit={task['limit']})"
+    try:
+        for b in comp:
+            run.step(b)
+        s1 = run.solve()
+        n1, t1, c1 = s1.numberOfGlobalTrials, len(told), run.solver.searchData.GetCount()
+        msgs = []
+        if n1 != t1:
+            msgs.append(f"{tag}: {n1} global trials reported, {t1} trials were told to the listener")
+        if c1 != t1 + 2:
+            msgs.append(f"{tag}: the search information holds {c1} items after {t1} trials")
+        for again in (2, 3):
+            s2 = run.solve()
+            if (s2.numberOfGlobalTrials, len(told), run.solver.searchData.GetCount()) != (n1, t1, c1):
+                msgs.append(f"{tag}: Solve number {again} on the finished solver changed (global trials reported, trials told, "
+                            f"items) from {(n1, t1, c1)} to {(s2.numberOfGlobalTrials, len(told), run.solver.searchData.GetCount())}")
+                break
+        return msgs
+    except BaseException as e:
+        return [f"{tag}: raised {type(e).__name__}: {e}"]
+
+
 def dump():
     """print the canonical logs (used for the cross-process determinism comparison)"""
     out = {}
@@ -271,6 +302,15 @@ def run(ctx):
         nlong += k
         runs += k
         res.merge_violations(viol)
+    rtasks = []
+    for cfg in OBJECTIVES[:5] if not th else OBJECTIVES:
+        for comp in ([], [3], [1, 2], [5, 4]):
+            for eps, limit in ((0.05, 60), (0.0, 7), (0.0, 12)):
+                rtasks.append(dict(cfg=cfg, comp=comp, eps=eps, limit=limit))
+    for t, msgs in zip(rtasks, pmap(refine_case, rtasks, chunksize=4)):
+        runs += 1
+        for m in msgs:
+            res.add_violation(dict(driver="refine", **t, message=m, sig={}))
     # determinism across processes / hash seeds
     here = {}
     for i, cfg in enumerate(OBJECTIVES):
@@ -306,6 +346,8 @@ def replay(rec):
         return [f"hash seed {hs}: different sequence" for hs, o in zip((1, 2), cross_process()) if o != here]
     if rec["driver"] == "long":
         return replay_long(rec)
+    if rec["driver"] == "refine":
+        return refine_case(rec)
     n = rec["n"]
     canon, states, D = canonical(cfg, n + 3)
     if rec["driver"] == "repeat":
